@@ -184,6 +184,11 @@ func genYOrder(r *Rng, tier string, n int, emit func(Case)) {
 			}
 			text := "module m { " + strings.Join(parts, " ") + " }"
 			emit(mkCheckCase(text, Case{"order": strings.Join(p, ",")}))
+			// prefixed extension statements are accepted anywhere: before, between and after the sections
+			for k := 0; k <= len(parts); k++ {
+				withExt := append(append(append([]string{}, parts[:k]...), "ex:marker \"x\";"), parts[k:]...)
+				emit(mkCheckCase("module m { "+strings.Join(withExt, " ")+" }", Case{"order": fmt.Sprintf("ext@%d,%s", k, strings.Join(p, ","))}))
+			}
 			// interleaved: split the header around another section
 			text2 := "module m { namespace \"urn:x\"; " + strings.Join(parts[1:], " ") + " prefix p; }"
 			if p[0] == "hdr" && len(p) > 1 {
